@@ -160,6 +160,22 @@ Definition lk_lock_func (t : Z) (l : lk_lock) : option lk_lock :=
   else if lk_held l then None
   else Some {| lk_held := true; lk_pid := t; lk_incb := lk_incb l; lk_cnt := lk_cnt l |}.
 
+(* the COAP_THREAD_RECURSIVE_CHECK variant of coap_lock_lock_func (default of the autoconf build):
+   trylock first; if that fails and the caller itself is the holder, re-entry from a callback is
+   counted, a recursive call outside a callback is the "Thread Deadlock" the variant reports (the
+   caller then waits on itself); otherwise wait for the holder.  Same decisions as lk_lock_func
+   on every lock state in which "mutex free" implies in_callback = 0 (LockProofs.lk_rc_same,
+   all reachable states: lk_rc_same_reachable). *)
+Definition lk_lock_func_rc (t : Z) (l : lk_lock) : option lk_lock :=
+  if lk_held l then
+    if lk_pid l =? t then
+      if negb (lk_incb l =? 0) then
+        Some {| lk_held := lk_held l; lk_pid := lk_pid l; lk_incb := lk_incb l;
+                lk_cnt := lk_cnt l + 1 |}
+      else None
+    else None
+  else Some {| lk_held := true; lk_pid := t; lk_incb := lk_incb l; lk_cnt := lk_cnt l |}.
+
 (* coap_lock_unlock_func() (the assert on the caller's pid is compiled out with NDEBUG) *)
 Definition lk_unlock_func (l : lk_lock) : lk_lock :=
   if negb (lk_incb l =? 0) then
